@@ -108,8 +108,12 @@ SParams == [k \in DOMAIN cfg.params \cup DOMAIN Builtin |->
 \* order), the client and server parameters, the remote address (addr) and a
 \* type map (tm); its own command context is live while it runs (live) and
 \* the context of the previous command has been cancelled (prevdone).
+\* A session middleware may hand the connection a context that ends (a session time-out, a kill switch).
+\* cfg.ctx = "dead": it has ended before the first command.  The library goes on serving the connection; what
+\* depends on the context fails: rows are not written (nothing is emitted for them), COPY-in is not started.
+Dead == "ctx" \in DOMAIN cfg /\ cfg.ctx = "dead"
 WithCtx(r) == r @@ [mw |-> [j \in 1..Len(cfg.mw) |-> j], cp |-> cparams, sp |-> SParams,
-                    addr |-> TRUE, tm |-> TRUE, live |-> TRUE, prevdone |-> TRUE]
+                    addr |-> TRUE, tm |-> TRUE, live |-> ~Dead, prevdone |-> TRUE]
 
 EmitOne(alts) == \E e \in alts : emit' = e
 
@@ -297,6 +301,7 @@ DwCb(name, ret, written) == Cb([name |-> name, ret |-> ret, written |-> written]
 HRow ==
     /\ Running /\ Op.op = "row"
     /\ IF h.closed \/ Len(Op.cells) # Len(h.st.cols) \/ ~RowEncodable(Op.cells, h.rfmt)
+          \/ (Dead /\ Len(h.st.cols) > 0)    \* (the context is consulted per value: a row without columns has none)
        THEN \* closed writer, wrong arity, unencodable value: nothing emitted,
             \* the counter does not move, the call fails
             /\ emit' = <<DwCb("dw.row", "err", h.written)>>
@@ -330,7 +335,7 @@ HEmpty ==
 
 HCopyIn ==
     /\ Running /\ Op.op = "copyin"
-    /\ IF h.closed \/ Len(h.st.cols) = 0
+    /\ IF h.closed \/ Len(h.st.cols) = 0 \/ Dead
        THEN emit' = <<DwCb("dw.copyin", "err", h.written)>> /\ h' = Adv(h)
        ELSE /\ emit' = <<Rv(MsgCopyIn(Op.fmt, Len(h.st.cols))), DwCb("dw.copyin", "nil", h.written)>>
             /\ h' = [Adv(h) EXCEPT !.copy = TRUE]
